@@ -17,7 +17,12 @@ Hardening round 4: O3.10's remover is a ROLE decided on values - whatever the lo
 after the pass-through wrapper was inlined, a method of the table object a factory returned) is RUN in the rule's file system (`os.remove` / `os.unlink` / `Path.unlink` act on a set
 of existing paths): the files it deletes name the remover, and a call establishes 'no table of this file' iff it returns without the table in every world it returns in - whatever
 options (`missing_ok=True`), parameter order or wrappers are involved. Methods of objects created by io code run in the io machine; a statement that cannot be run is 'not decided'
-there (`_M.strict_effects`), never 'no effect'."""
+there (`_M.strict_effects`), never 'no effect'.
+
+Hardening round 5 (benign/C14-b12): O3.10's "(re)creating statement" is a ROLE decided by data flow - a collaborator call (or the call of an own helper that contains one) that is handed
+the document path as the place to write to, whether the path arrives as a plain local or inside a record / tuple that one own helper builds and another takes apart (`carried` in
+`_stale_table_rule`: record constructions of the module in field order, field / index selection, unpacking, returns of own helpers). An invalidating helper that is handed something
+computed from the path (`target.path`) is 'not understood' (inconclusive), never 'no removal'."""
 from __future__ import annotations
 
 import ast
@@ -1822,8 +1827,63 @@ def _stale_table_rule(chk, ldr, io_):
             est_cache[ck] = bool(ee) and gh.exit.id not in gh.reachable([gh.entry], avoid_edges=ee, edge_ok=gh.normal_edge)
         return est_cache[ck]
 
+    def carried(f, e, seeds, depth=0, seen=None):
+        """DATA FLOW of the path through records and own helpers (hardening round 5, benign/C14-b12: the download target travels as `DownloadTarget(path, expected_size)` from one
+        extracted helper to the other). seeds: name -> access paths under which that local / parameter of f may hold the path (() - it IS the path; ("path",) / (0,) - its field
+        `path` / its element 0 is). Result: the access paths under which the value of the expression e, written in f, may hold it. Followed: locals (every assignment, also by
+        unpacking), tuple / list displays, constructions of the module's record classes (NamedTuple, namedtuple(..), @dataclass - a field is reachable by name and by position),
+        field / constant-index selections, conditional expressions, and calls of own helpers (method of the preparator, module-level function): what any of their return statements
+        may hold when the parameters receive what the arguments hold."""
+        seen = set() if seen is None else seen
+        if isinstance(e, ast.Name):
+            out = set(seeds.get(e.id, ()))
+            if (id(f), e.id) in seen:
+                return out
+            seen = seen | {(id(f), e.id)}
+            for st in walk_body(f):
+                tv = [(t, st.value) for t in st.targets] if isinstance(st, ast.Assign) else [(st.target, st.value)] if isinstance(st, (ast.AnnAssign, ast.NamedExpr)) and st.value is not None else []
+                for t, v in tv:
+                    if isinstance(t, ast.Name) and t.id == e.id:
+                        out |= carried(f, v, seeds, depth, seen)
+                    elif isinstance(t, (ast.Tuple, ast.List)) and not any(isinstance(x, ast.Starred) for x in t.elts):
+                        for i, x in enumerate(t.elts):
+                            if isinstance(x, ast.Name) and x.id == e.id:
+                                out |= {p_[1:] for p_ in carried(f, v, seeds, depth, seen) if p_ and p_[0] == i}
+            return out
+        if isinstance(e, (ast.Tuple, ast.List)):
+            return {(i,) + p_ for i, x in enumerate(e.elts) if not isinstance(x, ast.Starred) for p_ in carried(f, x, seeds, depth, seen)}
+        if isinstance(e, ast.Attribute):
+            return set() if is_self_attr(e) else {p_[1:] for p_ in carried(f, e.value, seeds, depth, seen) if p_ and p_[0] == e.attr}
+        if isinstance(e, ast.Subscript):
+            k_ = e.slice.value if isinstance(e.slice, ast.Constant) and isinstance(e.slice.value, (int, str)) and not isinstance(e.slice.value, bool) else None
+            return set() if k_ is None else {p_[1:] for p_ in carried(f, e.value, seeds, depth, seen) if p_ and p_[0] == k_}
+        if isinstance(e, ast.IfExp):
+            return carried(f, e.body, seeds, depth, seen) | carried(f, e.orelse, seeds, depth, seen)
+        if isinstance(e, ast.BoolOp):
+            return set().union(*[carried(f, x, seeds, depth, seen) for x in e.values])
+        if isinstance(e, (ast.NamedExpr, ast.Await)):
+            return carried(f, e.value, seeds, depth, seen)
+        if isinstance(e, ast.Call) and not any(isinstance(a, ast.Starred) for a in e.args) and not any(k_.arg is None for k_ in e.keywords):
+            fields = _record_fields(ldr, e.func, tuples_only=False)
+            if fields is not None:
+                got = list(zip(fields, e.args)) + [(k_.arg, k_.value) for k_ in e.keywords if k_.arg in fields]
+                return {(s_,) + p_ for fn_, a in got for p_ in carried(f, a, seeds, depth, seen) for s_ in (fn_, fields.index(fn_))}
+            h = own_callee(e)
+            if h is not None and h is not f and depth < 3:
+                hs = {q: carried(f, v, seeds, depth, seen) for q, v in bind_args(e, h).items()}
+                hs = {q: v for q, v in hs.items() if v}
+                if hs:
+                    return set().union(*[carried(h, r.value, hs, depth + 1) for r in walk_body(h) if isinstance(r, ast.Return) and r.value is not None] or [set()])
+        return set()
+
+    def as_seeds(names_):
+        return names_ if isinstance(names_, dict) else {n_: {()} for n_ in names_}
+
     def collaborator_calls(f, names_):
-        """(re)creation of a file: calls on a collaborator object (self.<attribute>.<method>: the decompressor, the downloader) that are handed one of the names as the place to write to."""
+        """(re)creation of a file: calls on a collaborator object (self.<attribute>.<method>: the decompressor, the downloader) that are handed the path (what one of the names - or,
+        with a dict of seeds, a field of one of them - holds, by data flow: `carried`) as the place to write to."""
+        seeds = as_seeds(names_)
+
         def queried(c):
             """the call's value decides a branch / is asserted: a question put to the collaborator, not an order."""
             p_, ch = source.parent(c), c
@@ -1832,7 +1892,7 @@ def _stale_table_rule(chk, ldr, io_):
             return (isinstance(p_, (ast.If, ast.While)) and ch is p_.test) or isinstance(p_, ast.Assert)
 
         return [c for c in source.calls_in(f) if isinstance(c.func, ast.Attribute) and is_self_attr(c.func.value) and not _is_logging(c) and not queried(c)
-                and any(isinstance(a, ast.Name) and a.id in names_ for a in list(c.args) + [k_.value for k_ in c.keywords])]
+                and any(() in carried(f, a, seeds) for a in list(c.args) + [k_.value for k_ in c.keywords] if not isinstance(a, ast.Starred))]
 
     _PURE = ("os.path.", "logging.", "console.", "os.stat", "os.fspath", "io.basename", "io.dirname", "io.splitext")
     _BUILTIN_PURE = {"len", "str", "repr", "format", "print", "isinstance", "bool", "type", "id", "hash"}
@@ -1859,6 +1919,8 @@ def _stale_table_rule(chk, ldr, io_):
                 continue  # a string method of the path itself
             if source.enclosing(c, ast.Raise) is not None or _last(c.func) in ("Path", "PurePath"):
                 continue
+            if _record_fields(ldr, c.func, tuples_only=False) is not None:
+                continue  # the construction of a record of the module (NamedTuple / namedtuple / @dataclass without an own __init__): it carries the path, it does nothing to files
             g_ = io_callee(c, ldr)
             if g_ is not None:
                 # understood, whether or not it removes the table: the preparer; an io callable that deletes nothing; one whose deletions are all evaluated for the path it is
@@ -1872,6 +1934,10 @@ def _stale_table_rule(chk, ldr, io_):
                 if depth < 2 and h is not f:
                     for q, v in bind_args(c, h).items():
                         if any(isinstance(n_, ast.Name) and n_.id in names_ for n_ in ast.walk(v)):
+                            if not isinstance(v, ast.Name) and establishes(h, q, depth + 1):
+                                # the helper removes the table of the file its parameter names, and what it is handed is computed from the path (`target.path`, a joined
+                                # name): WHICH file's table goes is not told by the names - not understood, not 'no removal'
+                                out.append(c)
                             out += opaque_calls(h, {q}, depth + 1)
                 continue
             if any(c is k_ for k_ in collaborator_calls(f, names_)):
@@ -1916,9 +1982,13 @@ def _stale_table_rule(chk, ldr, io_):
                 if h is None or id(h) in preparers or h is m:
                     continue
                 b = bind_args(c, h)
-                q_alias = [k_ for k_, v in b.items() if isinstance(v, ast.Name) and v.id in alias | dn]
+                # what the helper's parameters may hold of the path, by data flow: the path itself (a plain local) or a record / tuple one of whose fields is the path - built
+                # in place or returned by another own helper (`self.download_corpus_file(document_set, self.download_target(document_set, doc_path, archive_path))`)
+                q_seeds = {k_: carried(m, v, as_seeds(alias | dn)) for k_, v in b.items()}
+                q_seeds = {k_: v for k_, v in q_seeds.items() if v}
+                q_alias = list(q_seeds)
                 q_doc = [k_ for k_, v in b.items() if isinstance(v, ast.Name) and v.id in dn]
-                inner = collaborator_calls(h, set(q_alias))
+                inner = collaborator_calls(h, q_seeds)
                 if not inner:
                     continue
                 gh = cfg_of(h)
@@ -3694,6 +3764,40 @@ def _r4_missing_ok(kind, name, body, call="io.remove_file_offset_table(document_
 
 
 
+# ---- hardening round 5 (benign/C14-b12): the download of prepare_document_set extracted into two helpers, the (path, expected size) pair travels as a record ------------------
+_R5_DOWNLOAD_ARM = ("                if document_set.has_compressed_corpus():\n                    target_path = archive_path\n                    expected_size = document_set.compressed_size_in_bytes\n"
+                    "                elif document_set.has_uncompressed_corpus():\n                    target_path = doc_path\n                    expected_size = document_set.uncompressed_size_in_bytes\n"
+                    "                else:\n                    # this should not happen in practice as the JSON schema should take care of this\n"
+                    "                    raise exceptions.RallyAssertionError(f\"Track {self.track_name} specifies documents but no corpus\")\n\n"
+                    "                try:\n                    self.downloader.download(document_set.base_url, target_path, expected_size)\n                    self.invalidate_file_offset_table(doc_path)\n"
+                    "                except exceptions.DataError as e:\n"
+                    "                    if e.message == \"Cannot download data because no base URL is provided.\" and self.is_locally_available(target_path):\n"
+                    "                        raise exceptions.DataError(\n                            f\"[{target_path}] is present but does not have the expected \"\n"
+                    "                            f\"size of [{expected_size}] bytes and it cannot be downloaded \"\n                            f\"because no base URL is provided.\"\n"
+                    "                        ) from None\n                    raise\n")
+_R5_PDS = "    def prepare_document_set(self, document_set, data_root):\n"
+_R5_RECORD = "class DownloadTarget(NamedTuple):\n    path: str\n    expected_size: Optional[int]\n\n\n"
+_R5_TARGET = ("    def download_target(self, document_set, doc_path, archive_path):\n        if document_set.has_compressed_corpus():\n"
+              "            return DownloadTarget(archive_path, document_set.compressed_size_in_bytes)\n        if document_set.has_uncompressed_corpus():\n"
+              "            return DownloadTarget(doc_path, document_set.uncompressed_size_in_bytes)\n"
+              "        raise exceptions.RallyAssertionError(f\"Track {self.track_name} specifies documents but no corpus\")\n\n")
+_R5_FETCH = ("    def download_corpus_file(self, document_set, target):\n        try:\n            self.downloader.download(document_set.base_url, target.path, target.expected_size)\n"
+             "        except exceptions.DataError as e:\n            if e.message == \"Cannot download data because no base URL is provided.\" and self.is_locally_available(target.path):\n"
+             "                raise exceptions.DataError(f\"[{target.path}] is present but does not have the expected size of [{target.expected_size}] bytes.\") from None\n"
+             "            raise\n\n")
+_R5_CALL = "                self.download_corpus_file(document_set, self.download_target(document_set, doc_path, archive_path))\n"
+_R5_INVALIDATE = "                self.invalidate_file_offset_table(doc_path)\n"
+
+
+def _r5_download_helpers(kind, name, arm=_R5_CALL + _R5_INVALIDATE, target=_R5_TARGET, fetch=_R5_FETCH, record=_R5_RECORD):
+    """benign/C14-b12: `download_target` chooses the file to fetch and returns it as a record, `download_corpus_file` downloads what the record names; the loop keeps the
+    invalidation of the document file's table."""
+    return [V(f"r5: the download extracted into two helpers, the target travels as a record{name}", kind, _L, _R5_DOWNLOAD_ARM, arm, "O3.10" if kind == "break" else None),
+            V("", kind, _L, "from typing import Callable, Optional\n", "from typing import Callable, NamedTuple, Optional\n"),
+            V("", kind, _L, _R3_DP, record + _R3_DP),
+            V("", kind, _L, _R5_PDS, target + fetch + _R5_PDS)]
+
+
 def _r3_module_level_invalidation(kind, body, rule=None):
     """the invalidation helper as a module-level function of the loader (body: its statements), called at the three (re)creation sites."""
     call = "_invalidate_file_offset_table(doc_path)"
@@ -4047,4 +4151,24 @@ VARIANTS = [
     _r4_table_object("break", " - the table object is the one of the archive", "        os.remove(self.offset_table_path)\n", path="document_file_path + \".bz2\""),
     _r4_missing_ok("break", " - the remover swallows the error of deleting another file name",
                    "        try:\n            os.remove(f\"{data_file_path}.offsets\")\n        except FileNotFoundError:\n            if not missing_ok:\n                raise\n"),
+    # ---- hardening round 5 (benign/C14-b12) ---------------------------------------------------------------------------------------------------------------------------
+    # O3.10 re-stated: WHAT a collaborator is handed as the place to write to is decided by data flow (`carried`): the path may reach the download through a record / tuple that
+    # one own helper builds and another one takes apart (field by name, by index, by unpacking); the call of the helper that performs the download is the (re)creating statement
+    _r5_download_helpers("keep", ""),
+    _r5_download_helpers("keep", ", held in a local first", "                target = self.download_target(document_set, doc_path, archive_path)\n                self.download_corpus_file(document_set, target)\n" + _R5_INVALIDATE),
+    _r5_download_helpers("keep", " built by keyword, the download stays in the loop and reads the record's fields",
+                         "                target = self.download_target(document_set, doc_path, archive_path)\n"
+                         "                self.downloader.download(document_set.base_url, target.path, target.expected_size)\n" + _R5_INVALIDATE,
+                         target=_R5_TARGET.replace("DownloadTarget(doc_path, document_set.uncompressed_size_in_bytes)", "DownloadTarget(expected_size=document_set.uncompressed_size_in_bytes, path=doc_path)")),
+    _r5_download_helpers("keep", " (a bare pair, unpacked by the downloading helper)",
+                         target=_R5_TARGET.replace("DownloadTarget(", "("),
+                         fetch=_R5_FETCH.replace("        try:\n", "        path, expected_size = target\n        try:\n").replace("target.path", "path").replace("target.expected_size", "expected_size")),
+    _r5_download_helpers("keep", " - the table is invalidated before the download instead of after it", _R5_INVALIDATE + _R5_CALL),
+    _r5_download_helpers("break", " - nobody invalidates the table after the download", _R5_CALL),
+    _r5_download_helpers("break", " - the archive's table is invalidated after the download", _R5_CALL + "                self.invalidate_file_offset_table(archive_path)\n"),
+    _r5_download_helpers("break", " (a bare pair, selected by index) - nobody invalidates the table after the download", _R5_CALL,
+                         target=_R5_TARGET.replace("DownloadTarget(", "("), fetch=_R5_FETCH.replace("target.path", "target[0]").replace("target.expected_size", "target[1]")),
+    _r5_download_helpers("break", " - the download stays in the loop, reads the record's fields and nobody invalidates the table",
+                         "                target = self.download_target(document_set, doc_path, archive_path)\n"
+                         "                self.downloader.download(document_set.base_url, target.path, target.expected_size)\n"),
 ]
